@@ -48,6 +48,7 @@ func run(r *lib.Run) {
 		"starting table, target {random, a peer id, self}, release policy of the logical scheduler {enumerated base-3 choice prefix of depth 4 over fixed graphs, random, fifo, lifo, closest-first, farthest-first}, cancellation step); " +
 		"the real lookup runs over a real Table with a monitor-owned query function that blocks until the scheduler releases it. " +
 		"Part B: case = (3..12 scripted adversaries on the in-memory network answering FINDCONTENT with content / ENR lists / garbage / empty / nothing / uTP transfer, reply delays, starting table) against a real node's ContentLookup, plus Lookup over FINDNODES. " +
+		"Part C: Lookup through the real query path against scripted peers listing validly signed records that share one public /24 (the routing table declines most of them), result compared with the 16 closest of everything the lookup saw; Stop() with a refresh lookup's query in flight. " +
 		"Directed: a content answer cancels the lookup while the lookup goroutine is held (verif yield point) in the middle of digesting another reply, and a third peer's ENR answer arrives afterwards. " +
 		"distinct = different (world, completion order of the released queries) resp. (script, set of peers asked, outcome); non-trivial = the lookup issued at least one query and its log and result were judged by the oracle")
 	r.Assume("reference metric: XOR of node ids compared as big-endian 256-bit integers; expected result of an uncancelled node lookup = the 16 closest ids of (starting table content ∪ every non-nil node returned by a query), compared by id only (which record of an id is kept is not decided by the statement)")
@@ -58,9 +59,25 @@ func run(r *lib.Run) {
 	r.Assume("quiescence of the lookup is decided by a settle interval (wall clock); it only steers which schedules are explored, no verdict depends on it. The 20 s watchdog after the last release yields inconclusive unless the goroutine dump shows the lookup goroutine blocked in portalwire.(*lookup) frames")
 
 	var wg sync.WaitGroup
-	wg.Add(2)
+	wg.Add(3)
 	go func() { defer wg.Done(); partA(r) }()
 	go func() { defer wg.Done(); partB(r) }()
+	go func() { // part C
+		defer wg.Done()
+		var cw sync.WaitGroup
+		for i := 0; i < r.Pick(6, 60); i++ {
+			cw.Add(1)
+			go func(i int) { defer cw.Done(); lookupThroughWorker(r, i) }(i)
+			if i%6 == 5 {
+				cw.Wait()
+			}
+		}
+		for i := 0; i < r.Pick(3, 20); i++ {
+			cw.Add(1)
+			go func(i int) { defer cw.Done(); stopDuringRefresh(r, i) }(i)
+		}
+		cw.Wait()
+	}()
 	wg.Wait()
 	// directed schedules through the process-global lookup yield point: one at a time, nothing else running
 	for i := 0; i < r.Pick(4, 40); i++ {
